@@ -266,14 +266,14 @@ Qed.
 Lemma generate_arms : forall a alts g,
   generate (a :: alts, g) =
   CMatch (analyze_args (a :: alts)) (local_defs (all_matchers 0 (a :: alts)))
-    (map (success_arm (match g with Some g => [bmap MUser g] | None => [] end)) (all_matchers 0 (a :: alts))
+    (map (success_arm (match g with Some g => [BParen (bmap MUser g)] | None => [] end)) (all_matchers 0 (a :: alts))
      ++ (match (match g with None => Some (all_matchers 0 (a :: alts)) | Some _ => None end) with
          | Some m => [diagnostics_arm m] | None => [] end) ++ [catch_all])%list.
 Proof. intros. destruct g; reflexivity. Qed.
 
 Lemma accepts_existsb : forall a alts g en args,
   accepts (a :: alts, g) en args =
-  existsb (arm_fires (match g with Some g => [bmap MUser g] | None => [] end)
+  existsb (arm_fires (match g with Some g => [BParen (bmap MUser g)] | None => [] end)
                      (local_defs (all_matchers 0 (a :: alts))) (coerce_all (analyze_args (a :: alts)) args))
           (all_matchers 0 (a :: alts)).
 Proof.
@@ -291,20 +291,17 @@ Qed.
 (* ---------- all alternatives ---------- *)
 
 Lemma join_eval : forall (g : option gexpr) locals em e ms,
-  (match g with Some g => is_or g = false \/ local_guards ms = [] | None => True end) ->
   (forall x, mlookup (U x) em = lookup x e) ->
-  match join_guards ((match g with Some g => [bmap MUser g] | None => [] end) ++ local_guards ms)%list with
+  match join_guards ((match g with Some g => [BParen (bmap MUser g)] | None => [] end) ++ local_guards ms)%list with
   | Some j => beval (matom_eval locals em) j
   | None => true
   end = (match g with Some g => geval e g | None => true end) && forallb (beval (matom_eval locals em)) (local_guards ms).
 Proof.
-  intros g locals em e ms HF HU.
+  intros g locals em e ms HU.
   assert (UG : forall u, beval (matom_eval locals em) (bmap MUser u) = geval e u).
   { intros u. rewrite beval_bmap. unfold geval. apply beval_ext. intros a. simpl. apply uatom_eval_ext. exact HU. }
   destruct g as [g|]; cbn [app join_guards].
-  - destruct HF as [HF|HF].
-    + rewrite fold_concat_and, UG; [reflexivity|]. destruct g; try reflexivity; discriminate.
-    + rewrite HF. simpl. rewrite UG, andb_true_r. reflexivity.
+  - rewrite fold_concat_and by reflexivity. cbn [beval]. rewrite UG. reflexivity.
   - destruct (local_guards ms) as [|l ls] eqn:El; [reflexivity|]. cbn [join_guards].
     assert (NL : is_or l = false).
     { clear - El. induction ms as [|[p|ne i k o] ms IH]; simpl in El; [discriminate|auto|].
@@ -322,14 +319,13 @@ Proof.
 Qed.
 
 Lemma alts_existsb : forall g args cvs locals alts c,
-  (match g with Some g => is_or g && existsb has_compare alts = false | None => True end) ->
   Forall (fun ps => pos_ok ps args cvs) alts ->
   NoDup (map fst locals) ->
   incl (local_defs (all_matchers c alts)) locals ->
-  existsb (arm_fires (match g with Some g => [bmap MUser g] | None => [] end) locals cvs) (all_matchers c alts)
+  existsb (arm_fires (match g with Some g => [BParen (bmap MUser g)] | None => [] end) locals cvs) (all_matchers c alts)
   = existsb (alt_accepts g args) alts.
 Proof.
-  intros g args cvs locals. induction alts as [|ps alts IH]; intros c HF HP ND HI; [reflexivity|].
+  intros g args cvs locals. induction alts as [|ps alts IH]; intros c HP ND HI; [reflexivity|].
   inversion HP as [|? ? P1 P2]; subst.
   cbn [all_matchers]. pose proof (arg_matchers_length ps 0 c) as HLen.
   destruct (arg_matchers 0 c ps) as [ms c'] eqn:Em. cbn [fst] in HLen. cbn [existsb].
@@ -344,30 +340,23 @@ Proof.
     rewrite packed_is_positional by (rewrite HLen; apply (pos_ok_length _ _ _ P1)).
     destruct (match_all pos_bindings ps args) as [e|].
     + destruct A as [em [M1 [M2 M3]]]. rewrite M1.
-      etransitivity; [apply (join_eval g locals em e ms); [|exact M2]|].
-      2:{ pose proof (M3 [] (fun _ _ => eq_refl)) as M4. cbn [app] in M4. rewrite M4, andb_comm. reflexivity. }
-      * destruct g as [g|]; [|exact I]. simpl in HF. destruct (is_or g); [|left; reflexivity].
-        right. simpl in HF. apply orb_false_iff in HF. destruct HF as [HF _].
-        pose proof (no_compare_no_guards ps 0 c HF) as N. rewrite Em in N. exact N.
+      etransitivity; [apply (join_eval g locals em e ms); exact M2|].
+      pose proof (M3 [] (fun _ _ => eq_refl)) as M4. cbn [app] in M4. rewrite M4, andb_comm. reflexivity.
     + rewrite A, andb_false_r. reflexivity.
-  - apply IH; [| assumption | assumption |].
-    + destruct g as [g|]; [|exact I]. simpl in HF. destruct (is_or g); [|reflexivity].
-      simpl in *. apply orb_false_iff in HF. tauto.
-    + intros x Hx. apply HI, in_or_app. right. exact Hx.
+  - apply IH; [assumption | assumption |].
+    intros x Hx. apply HI, in_or_app. right. exact Hx.
 Qed.
 
 Lemma seq_keys_nodup : forall alts, NoDup (map fst (local_defs (all_matchers 0 alts))).
 Proof. intros. destruct (all_matchers_keys alts 0) as [n H]. rewrite H. apply seq_NoDup. Qed.
 
 Lemma compile_is_rust_match : forall alts g args enabled,
-  f3_class (alts, g) = false ->
   well_coerced alts args = true ->
   accepts (alts, g) enabled args = rust_match (alts, g) args.
 Proof.
-  intros [|a alts] g args en HF HW; [reflexivity|].
+  intros [|a alts] g args en HW; [reflexivity|].
   rewrite accepts_existsb. unfold rust_match. cbn [fst snd].
   apply alts_existsb.
-  - unfold f3_class in HF. cbn [fst snd] in HF. destruct g; [exact HF|exact I].
   - unfold well_coerced in HW. rewrite forallb_forall in HW. apply Forall_forall. intros ps Hin.
     apply coerced_ok_pos_ok, HW, Hin.
   - apply seq_keys_nodup.
